@@ -2,12 +2,14 @@ import Driver.Wire
 import Driver.Size
 import Driver.Peers
 import Driver.Tower
+import Driver.Router
 open Anemo Anemo.Driver
 
 /-- state carried across lines by the stateful models -/
 structure DState where
   peers : PeersState := {}
   tower : TowerState := {}
+  router : RouterState := {}
 
 def step (st : DState) (line : String) : DState × String :=
   let toks := (line.trimAscii.toString.splitOn " ").filter (· ≠ "")
@@ -23,6 +25,9 @@ def step (st : DState) (line : String) : DState × String :=
     else if cmd.startsWith "auth." || cmd.startsWith "inflight." || cmd.startsWith "gcra." then
       let (ts, o) := towerOp st.tower cmd args
       ({ st with tower := ts }, o)
+    else if cmd.startsWith "router." then
+      let (rs, o) := routerOp st.router cmd args
+      ({ st with router := rs }, o)
     else (st, "bad-op")
 
 partial def loop (h : IO.FS.Stream) (out : IO.FS.Stream) (st : DState) : IO Unit := do
